@@ -1,4 +1,5 @@
 import SeqIoModel.Proofs.Iterators
+import SeqIoModel.Proofs.RawSeq
 /-!
 # C13 – all views of a record agree with each other
 -/
@@ -38,5 +39,23 @@ theorem utf8_header_iff_parts (h : List UInt8) :
 
 example : idBytes [97, 98, 32, 99, 100, 32, 101] = [97, 98] ∧
     descBytes [97, 98, 32, 99, 100, 32, 101] = some [99, 100, 32, 101] := by decide
+
+/-- the raw sequence differs from the lines only by line terminators (for every record `next()` returns,
+at every capacity): there are LF-free raw lines such that the sequence lines are these with one final CR
+removed each, and the raw sequence is these joined by LF with one final CR removed -/
+theorem raw_is_lines_joined {inp : List UInt8} {r r' : Reader} {rest : List Obs} {fuel : Nat}
+    (h : InvR inp r rest) (hfuel : inp.length < fuel) (hn : next fuel r = (r', .ok true)) :
+    ∃ rawLines : List (List UInt8),
+      allSome (seqLines r'.br.buf r'.bp) = some (rawLines.map trimCr) ∧
+      seqRaw r'.br.buf r'.bp = some (trimCr (Raw.joinLF rawLines)) ∧
+      ∀ l ∈ rawLines, LF ∉ l :=
+  Raw.next_raw_eq_join h hfuel hn
+
+/-- … hence deleting LF and CR bytes from the raw sequence and from the owned sequence gives the same -/
+theorem raw_and_owned_differ_by_terminators {inp : List UInt8} {r r' : Reader} {rest : List Obs} {fuel : Nat}
+    (h : InvR inp r rest) (hfuel : inp.length < fuel) (hn : next fuel r = (r', .ok true)) :
+    ∃ raw owned, seqRaw r'.br.buf r'.bp = some raw ∧ ownedSeq r'.br.buf r'.bp = some owned ∧
+      raw.filter (fun b => decide (b ≠ LF ∧ b ≠ CR)) = owned.filter (fun b => decide (b ≠ LF ∧ b ≠ CR)) :=
+  Raw.next_raw_filter_eq h hfuel hn
 
 end SeqIo.Thm.C13
